@@ -17,7 +17,7 @@ dst.mkdir(parents=True, exist_ok=True)
 for f in ("patch.diff", "demo.py", "notes.md"):
     shutil.copy(root / f, dst / f)
 meta = {"id": f"{pid}-{suf}", "property": pid,
-        "origin": "independent sub-agent given only the property text and a scratch worktree of /repo HEAD (round 3)",
+        "origin": "independent sub-agent given only the property text and a scratch worktree of /repo HEAD (round " + os.environ.get("ROUND", "7") + ")",
         "what_it_needs_to_manifest": (root / "notes.md").read_text(),
         "confirmed_by_me": {"patch_applies_to_repo_head": True, "suite_c_backend": tests["C"], "suite_pure_python": tests["py"],
                             "demo_on_clean_tree": "PASS (exit 0)", "demo_with_change": "FAIL (exit 1)",
